@@ -408,8 +408,10 @@ def scan_lexicons(source: AnyPath) -> list[ScanInfo]:
         b'((?:[^>"\']|"[^"]*"|\'[^\']*\')*)>',
         flags=re.M
     )
+    # match whole attributes so that text inside a quoted value which
+    # looks like an attribute (e.g. citation="see id='x'") is not rescanned
     attr_re = re.compile(
-        b'(?<![\\w:.-])(id|version|label)\\s*=\\s*(?:"([^"]*)"|\'([^\']*)\')',
+        b'([^\\s=]+)\\s*=\\s*(?:"([^"]*)"|\'([^\']*)\')',
         flags=re.M
     )
 
@@ -424,6 +426,7 @@ def scan_lexicons(source: AnyPath) -> list[ScanInfo]:
                     _m.group(2) if _m.group(2) is not None else _m.group(3)
                 ).decode("utf-8"))
                 for _m in attr_re.finditer(remainder)
+                if _m.group(1) in (b'id', b'version', b'label')
             }
             if 'id' not in attrs or 'version' not in attrs:
                 raise LMFError(f'<{lextype.decode("utf-8")}> missing id or version')
